@@ -277,7 +277,13 @@ func copyValue(v reflect.Value, identMap map[*ast.Ident]*ast.Ident) reflect.Valu
 		for i := 0; i < v.NumField(); i++ {
 			f := v.Field(i)
 			if f.Type() == posType {
-				continue // cleared
+				// positions are cleared, except the ones that carry meaning: a
+				// valid CallExpr.Ellipsis means f(xs...), a valid Ellipsis.Ellipsis /
+				// ChanType.Arrow / etc. are only layout
+				if v.Type().Name() == "CallExpr" && v.Type().Field(i).Name == "Ellipsis" && f.Int() != 0 {
+					out.Field(i).SetInt(1)
+				}
+				continue
 			}
 			if !out.Field(i).CanSet() {
 				continue
